@@ -38,12 +38,12 @@ def register(R):
                    result="Nd2",
                    raises={"ValueError": {
                        "when": REJ, "iff": True, "tags": "C14",
-                       "modifies": ["_input_cols", "_input_col_dim"],
-                       "ensures": memo + [
+                       "modifies": [],
+                       "ensures": [
                            # property C14: a rejected call does no harm -- in particular it establishes nothing
-                           ("C14!", "unchanged(self)"),
+                           ("C14", "unchanged(self)"),
                            # property C14: only inputs the acceptance rule forbids are rejected
-                           ("C14!", "not (%s)" % ACC),
+                           ("C14", "not (%s)" % ACC),
                        ]}},
                    ensures=memo + [
                        "result.shape[0] == %s(X)" % ROWS,
